@@ -4,6 +4,7 @@ prior settings, on every backend; registration is run twice in a child process; 
 sequentially and on 16 threads and compared bit for bit; the per-thread error state the model assumes is probed."""
 from __future__ import annotations
 
+import copy
 import json
 import os
 import subprocess
@@ -23,7 +24,7 @@ RULE = ("every catalogued getter / unary / binary call plus 14 raising calls x b
         "state is compared before/after each call; distinct = distinct (backend, operation, system, flavor, setting, outcome kind); "
         "thread runs: the same call list sequentially and on 16 threads under 3 partitions, results compared bit for bit")
 ASSUMPTIONS = ["state observed: numpy.geterr(), numpy.geterrcall(), warnings.filters, numpy.get_printoptions(), awkward.behavior, "
-               "vector.backends.awkward.behavior, vector._awkward_registered (sys.modules / import caches are not observed)",
+               "vector.backends.awkward.behavior, vector._awkward_registered, every module-level dict / list / set of the vector package (sizes; keys of the small ones) (sys.modules / import caches are not observed)",
                "the CPython scheduler chooses the interleavings of the 16-thread runs; the theorem C20_threads_deterministic covers all of them in the model"]
 TRUSTED = ["T2 (tools/vtrace/t2.py): Python-ast effect skeletons of every dispatch(), scan of global writers and context managers",
            "numpy.errstate restores the previous setting on every exit and is per thread (probed by this harness on every run)",
@@ -31,12 +32,60 @@ TRUSTED = ["T2 (tools/vtrace/t2.py): Python-ast effect skeletons of every dispat
 
 
 # ------------------------------------------------------------------ observable state
+_containers = {"n": -1, "list": []}
+
+
+class CommonKeys(dict):
+    """compared on the keys both snapshots have: a lazily imported module adds containers, which is not a change of state"""
+
+    def __eq__(self, other):
+        return all(other[k] == v for k, v in self.items() if k in other)
+
+    def __ne__(self, other):
+        return not self.__eq__(other)
+
+    def get(self, k, default=None):
+        return dict.get(self, k, _ABSENT)
+
+
+class _Absent:
+    def __eq__(self, other):
+        return True
+
+    def __ne__(self, other):
+        return False
+
+
+_ABSENT = _Absent()
+
+
+def vector_tables():
+    """every module-level dict / list / set of the vector package (dispatch maps, alias tables, class registries): sizes, and the
+    keys of the alias / registry tables of vector._methods and the backends; the list of containers is recomputed only when a new
+    vector module has been imported"""
+    nmods = sum(1 for k in sys.modules if k == "vector" or k.startswith("vector."))
+    if nmods != _containers["n"]:
+        lst = []
+        for mk, m in list(sys.modules.items()):
+            if m is None or not (mk == "vector" or mk.startswith("vector.")):
+                continue
+            for k, v in list(vars(m).items()):
+                if isinstance(v, (dict, list, set)) and not k.startswith("__"):
+                    lst.append((f"{m.__name__}.{k}", v, (mk == "vector._methods" or mk.startswith("vector.backends")) and k != "behavior"))
+        _containers["n"], _containers["list"] = nmods, lst
+    out = CommonKeys()
+    for name, v, keyed in _containers["list"]:
+        out[name] = (len(v), tuple(map(repr, v)) if keyed and len(v) <= 64 else None)
+    return out
+
+
 def snapshot():
     import awkward
     import vector
     import vector.backends.awkward as VA
     po = numpy.get_printoptions()
     return {
+        "vector module-level tables": vector_tables(),
         "numpy.geterr": dict(numpy.geterr()),
         "numpy.geterrcall": id(numpy.geterrcall()),
         "warnings.filters": [(f[0], getattr(f[1], "pattern", f[1]), f[2].__name__, getattr(f[3], "pattern", f[3]), f[4]) for f in warnings.filters],
@@ -223,6 +272,14 @@ def build_calls(ctx_seed, deep):
                         other = b3 if (db == 3 and dim == 4) else w
                         calls.append((f"{site0}|{H.sysname(other_names)}:{nm}", (lambda v=v, other=other, f=f: f(v, other))))
                     calls.append((f"{site0}:repr", (lambda v=v: (repr(v), str(v)))))
+                    if backend == "numpy":      # explicit in-place assignments (on a private copy: the operands are shared with the thread runs) may change their operand, never a process-wide table
+                        keys = list(names) + ([H.MOM.get(k, k) for k in names if H.MOM.get(k, k) != k] if mom else [])
+                        for key in keys:
+                            calls.append((f"{site0}:setitem[{key}]", (lambda v=v, key=key: v.copy().__setitem__(key, numpy.asarray(v[key]) * 1.0))))
+                        calls.append((f"{site0}:setitem[0]", (lambda v=v: v.copy().__setitem__(0, v[1]))))
+                    if backend in ("object", "numpy", "sympy") and w is not None:
+                        calls.append((f"{site0}:iadd", (lambda v=v, w=w: copy.deepcopy(v).__iadd__(w))))
+                        calls.append((f"{site0}:imul", (lambda v=v: copy.deepcopy(v).__imul__(1.0))))
     return calls
 
 
